@@ -507,6 +507,8 @@ def fault_family(kinds=("undef", "key", "type", "func"), positions=FAULT_POSITIO
     out = []
     for pos in positions:
         for kind in kinds:
+            if kind == "str" and pos not in ("items", "conc", "delay", "retry_count", "retry_delay"):
+                continue        # a string is a legitimate value elsewhere
             bad = "bad:" + kind
             t1 = T(next=[dict(when="succeeded", pub=[["x", "res"]], do=["t2", "t3"]), dict(when="failed", do=["noop"])])
             t2 = T(next=[dict(do=["t4"])])
